@@ -12,10 +12,13 @@
 int splint(double xa[], double ya[], double y2a[], int n, double x, double *y, xrl_error **error)
 {
   _Bool ok; double v;
+  /* first elements: the predicates are evaluated on pointers held in locals (CBMC 6.11 mis-evaluates r_ok on the expression
+   * `xa + 1` itself when xa has a negative offset; probe in DESIGN 9) */
+  double *x1 = xa + 1, *y1 = ya + 1, *z1 = y2a + 1;
   __CPROVER_assert(n >= 2, "splint is called with at least two knots");
-  __CPROVER_assert(__CPROVER_r_ok(xa + 1, n * sizeof(double)), "splint: knots xa[1..n] are readable");
-  __CPROVER_assert(__CPROVER_r_ok(ya + 1, n * sizeof(double)), "splint: values ya[1..n] are readable");
-  __CPROVER_assert(__CPROVER_r_ok(y2a + 1, n * sizeof(double)), "splint: second derivatives y2a[1..n] are readable");
+  __CPROVER_assert(__CPROVER_r_ok(x1, n * sizeof(double)), "splint: knots xa[1..n] are readable");
+  __CPROVER_assert(__CPROVER_r_ok(y1, n * sizeof(double)), "splint: values ya[1..n] are readable");
+  __CPROVER_assert(__CPROVER_r_ok(z1, n * sizeof(double)), "splint: second derivatives y2a[1..n] are readable");
   __CPROVER_assert(__CPROVER_w_ok(y, sizeof(double)), "splint: result location is writable");
   __CPROVER_assume(ok || v == 0.0);
   if (!ok) stub_fail(error);
